@@ -144,6 +144,16 @@ def register(lib):
         r = untag(items[0])
         for x in items[1:]:
             x = untag(x)
+            if is_sym(r) or is_sym(x):
+                # resolve the comparison from the path condition when possible (keeps terms free of conditionals)
+                c = cur()
+                le_ = ops_cmp('<=', r, x)
+                if c.prove(le_):
+                    r = r if is_min else x
+                    continue
+                if c.prove(ops_cmp('>=', r, x)):
+                    r = x if is_min else r
+                    continue
             r = Min(r, x) if is_min else Max(r, x)
         return r
     E['min'] = lambda I, *a, **k: _minmax(I, a, k, True)
@@ -335,9 +345,41 @@ def register(lib):
         return [(ops_binop('+', start, k), x) for k, x in enumerate(seq)]
     E['enumerate'] = b_enumerate
 
+    def slice_indices(I, sl, n):
+        """slice.indices(n) as CPython computes it (PySlice_AdjustIndices) -- exact, forks on the sign of the step"""
+        n = untag(n)
+        step = 1 if sl.step is None else untag(sl.step)
+        if not is_sym(step) and step == 0:
+            raise PyRaise('ValueError', 'slice step cannot be zero')
+        if is_sym(step) and cur().decide(zint(step) == 0):
+            raise PyRaise('ValueError', 'slice step cannot be zero')
+        pos = ops_cmp('>', step, 0)
+        pos = pos if isinstance(pos, bool) else cur().decide(zbool(pos))
+        lower = 0 if pos else -1
+        upper = n if pos else ops_binop('-', n, 1)
+
+        def adj(v, default):
+            if v is None:
+                return default
+            v = untag(v)
+            v2 = Ite(ops_cmp('<', v, 0), Max(ops_binop('+', v, n), lower), Min(v, upper))
+            return v2
+        start = adj(sl.start, lower if pos else upper)
+        stop = adj(sl.stop, upper if pos else lower)
+        if sl.start is None:
+            start = 0 if pos else ops_binop('-', n, 1)
+        if sl.stop is None:
+            stop = n if pos else -1
+        return (start, stop, step)
+    M[('SSlice', 'indices')] = slice_indices
+
     def b_iter(I, it):
         return it
     E['iter'] = b_iter
+
+    def symseq_getitem(I, seq, k):
+        return seq.item(lib.norm_index(k, seq.length))
+    M[('SymSeq', '__getitem__')] = symseq_getitem
 
     def b_slice(I, *a):
         if len(a) == 1:
